@@ -42,3 +42,65 @@ Qed.
 (* the code before the repair: a NUL-free non-empty input makes every access scan out of bounds *)
 Lemma v0_refuted : exists input, as_ref (from_bytes_v0 input) = UB /\ leaked_extra (from_bytes_v0 input) <> 0%nat.
 Proof. exists [97]. split; [reflexivity|cbn; lia]. Qed.
+
+(* ---- comparison, hashing, the borrowed view, shape of the buffer ---- *)
+Lemma eq_by_content i j :
+  eq_cstring (from_str i) (from_str j) = Ok (if list_eq_dec Z.eq_dec (prefix_to_nul i) (prefix_to_nul j) then true else false).
+Proof.
+  unfold eq_cstring. destruct (from_str_spec i) as (_ & _ & Ai & _). destruct (from_str_spec j) as (_ & _ & Aj & _).
+  now rewrite Ai, Aj.
+Qed.
+
+Lemma eq_iff_content i j :
+  eq_cstring (from_str i) (from_str j) = Ok true <-> prefix_to_nul i = prefix_to_nul j.
+Proof.
+  rewrite eq_by_content. destruct (list_eq_dec Z.eq_dec (prefix_to_nul i) (prefix_to_nul j)) as [E|N]; split; intro H; auto; try discriminate.
+  contradiction.
+Qed.
+
+Lemma hash_by_content i : hash_key (from_str i) = Ok (prefix_to_nul i).
+Proof. unfold hash_key. now destruct (from_str_spec i) as (_ & _ & A & _). Qed.
+
+Lemma size_stops_at_first_nul p rest : Forall (fun x => x <> 0) p -> string_size (p ++ 0 :: rest) = Some (S (length p)).
+Proof.
+  induction 1 as [|x r Hx F IH]; cbn; [reflexivity|].
+  destruct (Z.eqb_spec x 0); [contradiction|]. now rewrite IH.
+Qed.
+
+Lemma borrowed_reads_back p rest : Forall (fun x => x <> 0) p -> borrowed_as_ref (p ++ 0 :: rest) = Ok p.
+Proof.
+  intro F. unfold borrowed_as_ref. rewrite (size_stops_at_first_nul p rest F). cbn [Nat.sub]. rewrite Nat.sub_0_r.
+  f_equal. rewrite firstn_app, Nat.sub_diag, firstn_all. cbn. apply app_nil_r.
+Qed.
+
+Lemma borrowed_unterminated p : Forall (fun x => x <> 0) p -> borrowed_as_ref p = UB.
+Proof.
+  intro F. unfold borrowed_as_ref. replace (string_size p) with (@None nat); [reflexivity|].
+  induction F as [|x r Hx F IH]; cbn; [reflexivity|]. destruct (Z.eqb_spec x 0); [contradiction|]. now rewrite <- IH.
+Qed.
+
+Lemma borrow_agrees input : borrowed_as_ref (borrow_cstring (from_str input)) = as_ref (from_str input).
+Proof. reflexivity. Qed.
+
+Lemma count_no_nul p : Forall (fun x => x <> 0) p -> count_occ Z.eq_dec p 0 = 0%nat.
+Proof. induction 1 as [|x r Hx F IH]; cbn; [reflexivity|]. destruct (Z.eq_dec x 0); [contradiction|exact IH]. Qed.
+
+Lemma one_nul_last input :
+  count_occ Z.eq_dec (bytes (from_str input)) 0 = 1%nat /\ last (bytes (from_str input)) 1 = 0.
+Proof.
+  cbn [from_str bytes]. split.
+  - rewrite count_occ_app, (count_no_nul _ (prefix_no_nul input)). reflexivity.
+  - apply last_last.
+Qed.
+
+Lemma from_readback_idem input : from_str (prefix_to_nul input) = from_str input.
+Proof. unfold from_str. now rewrite (prefix_idem _ (prefix_no_nul input)). Qed.
+
+Lemma prefix_is_prefix input : exists rest, input = prefix_to_nul input ++ rest /\ (rest = [] \/ exists r, rest = 0 :: r).
+Proof.
+  induction input as [|x r IH]; cbn.
+  - exists []. auto.
+  - destruct (Z.eqb_spec x 0) as [->|N].
+    + exists (0 :: r). split; [reflexivity|right; eauto].
+    + destruct IH as (rest & E & H). exists rest. split; [cbn; now rewrite <- E|exact H].
+Qed.
